@@ -24,3 +24,35 @@ def _(self, data: Val, encoder: Obj("Encoder")):
     ensures(implies(self.additions_index_to_data is not None and data in self.root_data_to_index,
                     encoder.number_of_bits == old(encoder.number_of_bits) + 1 + self.root_number_of_bits
                     and encoder.value == 2 * old(encoder.value) * pow2(self.root_number_of_bits) + self.root_data_to_index[data]))
+
+
+fields("MembersType", root_members=ObjSeq("Type"), additions=Opt(ObjSeq("Type")), optionals=ObjSeq("Type"))
+
+
+@contract("Type.decode", abstract=True)
+def _(self, decoder: Obj("Decoder")) -> Val:
+    raises(DecodeError)
+    raises(UnicodeDecodeError)
+    raises(ValueError)
+    raises(IndexError)
+    raises(NotImplementedError)
+    assigns(decoder)
+    ensures(decoder.number_of_bits <= old(decoder.number_of_bits))
+
+
+@contract("MembersType.decode_additions", props=["C07", "C05", "C16", "C08"], for_class="any")
+def _(self, decoder: Obj("Decoder")):
+    # X.691 19.7-19.9: normally small length n, n presence bits, then one open type per *present* addition.
+    # Unconditional half here; "an absent addition consumes nothing" is the presence-guard obligation of
+    # pyvc/extras.py::presence_guard_check (the arithmetic version made the solver diverge)
+    requires(self.additions is not None)
+    forget("bits_val", "is_bitstr")
+    raises(DecodeError)
+    raises(UnicodeDecodeError)
+    raises(ValueError)
+    raises(IndexError)
+    raises(NotImplementedError)
+    assigns(decoder)
+    ensures(decoder.number_of_bits <= old(decoder.number_of_bits))
+    loop(0, invariant=[decoder.number_of_bits <= at_entry(decoder.number_of_bits, 0),
+                       decoder.total_number_of_bits == old(decoder.total_number_of_bits)])
